@@ -2,6 +2,7 @@ mod common;
 mod rawdb_engine;
 mod vec_engine;
 mod compute_engine;
+mod codec_engine;
 
 fn main() {
     let args = common::Args(std::env::args().skip(1).collect());
@@ -9,6 +10,7 @@ fn main() {
         Some("rawdb") => rawdb_engine::main(&args),
         Some("vec") => vec_engine::main(&args),
         Some("compute") => compute_engine::main(&args),
+        Some("codec") => codec_engine::main(&args),
         _ => {
             eprintln!("usage: harness <engine> …");
             2
